@@ -5,6 +5,7 @@
 package main
 
 import (
+	"encoding/json"
 	"flag"
 	"fmt"
 	"os"
@@ -58,6 +59,27 @@ func main() {
 	r.Analysed["repo_packages"] = len(p.Repo)
 	r.Analysed["repo_ssa_functions"] = len(g.Funcs())
 	r.Analysed["all_packages"] = len(p.All)
+	if *tier == "thorough" {
+		// A1 audit: every interface invoke for which assumption A1 suppressed call edges, aggregated by receiver type and method
+		agg := map[string]int{}
+		for _, d := range g.Dropped {
+			agg[d.Recv+"."+d.Method]++
+		}
+		r.Extra["a1_suppressed_invokes_total"] = len(g.Dropped)
+		r.Extra["a1_suppressed_invokes_by_method"] = agg
+		if v := os.Getenv("VERIF_EXTRA_386_RC"); v != "" {
+			r.Extra["goarch_386_rerun_exit"] = v
+		}
+		if v := os.Getenv("VERIF_EXTRA_MUT_RC"); v != "" {
+			r.Extra["mutant_replay_exit"] = v
+		}
+		if b, err := os.ReadFile(*verif + "/evidence/mutants-" + *prop + ".json"); err == nil {
+			var m any
+			if json.Unmarshal(b, &m) == nil {
+				r.Extra["mutant_replay"] = m
+			}
+		}
+	}
 	c := &rules.Ctx{P: p, G: g, R: r, Tier: *tier}
 	func() {
 		defer func() {
